@@ -34,8 +34,10 @@ import (
 	"github.com/hashicorp/consul/agent/consul/stream"
 	"github.com/hashicorp/consul/agent/structs"
 	"github.com/hashicorp/consul/agent/submatview"
+	"github.com/hashicorp/consul/api"
 	"github.com/hashicorp/consul/lib/retry"
 	"github.com/hashicorp/consul/proto/private/pbsubscribe"
+	"github.com/hashicorp/consul/types"
 	"github.com/hashicorp/consul/zzverif/core"
 	"github.com/hashicorp/consul/zzverif/gen"
 )
@@ -153,6 +155,7 @@ type subsc struct {
 	caseVariant   string // health views: an update named an instance whose key differs from a key in the view only by the case of the node name
 	snapSubNo     int    // ordinal of the subscription that delivered the client's latest snapshot
 	nonTypical    string // service list: an update received since the last snapshot that no change of the typical-kind names accounts for
+	nonTypNames   map[string]bool // ... and the names such updates carried
 	// obligations to have left the subscription that was open when a restore / an ACL change of the
 	// client's token took effect: cause -> number of subscribes the client had done by then
 	oblig      map[string]int
@@ -241,6 +244,7 @@ type sched struct {
 	hist        map[string][]rec
 	commitEpoch map[uint64]int
 	multi       map[uint64]bool
+	shared      map[string]*sharedBatch
 	pendingQ    []batch
 	subs        []*subsc
 	nextID      int
@@ -562,6 +566,10 @@ func (s *sched) checkDelivery(sb *subsc, dl delivery, canQuery bool) {
 	}
 	s.run.Count("deliveries:" + kind)
 	s.run.Count("deliveries:" + sj.Class)
+	if dl.n >= 2 {
+		s.run.Count("deliveries:multi-event:" + kind)
+		s.run.Count("deliveries:multi-event:" + sj.Class)
+	}
 	s.kinds["delivery:"+kind] = true
 	sb.delivered++
 	subs := sb.subsDoneCopy()
@@ -601,11 +609,12 @@ func (s *sched) checkDelivery(sb *subsc, dl delivery, canQuery bool) {
 		s.run.Count("deliveries:index-unobservable")
 		if dl.snapshot {
 			// a new snapshot all the same: the client's history restarts here
-			sb.tainted, sb.resumedAcross, sb.nonTypical, sb.caseVariant = false, false, "", ""
+			sb.tainted, sb.resumedAcross, sb.nonTypical, sb.caseVariant, sb.nonTypNames = false, false, "", "", nil
 			sb.snapSubNo, sb.haveLast = dl.subNo, false
 		}
 		return
 	}
+	s.noteSharedBatch(sb, kind, d, dl.n)
 	s.logf("  client %d (%s) %s delivery at index %d (%d events) on its subscription #%d (opened with index %d after commit @%d)", sb.id, sj.Name, kind, d, dl.n, dl.subNo, info.index, info.commit)
 
 	if sj.Class == "service-list" && !dl.snapshot {
@@ -680,7 +689,7 @@ func (s *sched) checkDelivery(sb *subsc, dl delivery, canQuery bool) {
 		sb.snapSubNo = dl.subNo
 	}
 	if dl.snapshot {
-		sb.nonTypical = ""
+		sb.nonTypical, sb.nonTypNames = "", nil
 		sb.caseVariant = ""
 	}
 	regressed := d < sb.maxIdx
@@ -725,6 +734,28 @@ func (s *sched) checkDelivery(sb *subsc, dl delivery, canQuery bool) {
 	}
 }
 
+// onlyNamesDiffer: do the two name lists differ in nothing but the given names?
+func (s *sched) onlyNamesDiffer(want, got string, names map[string]bool) bool {
+	wm, gm := map[string]bool{}, map[string]bool{}
+	for _, n := range strings.Split(want, "\n") {
+		wm[n] = true
+	}
+	for _, n := range strings.Split(got, "\n") {
+		gm[n] = true
+	}
+	for n := range wm {
+		if !gm[n] && !names[n] {
+			return false
+		}
+	}
+	for n := range gm {
+		if !wm[n] && !names[n] {
+			return false
+		}
+	}
+	return true
+}
+
 // noteServiceListOps: is every Register/Deregister update of commit d accounted for by a change of
 // the typical-kind service names at that commit (the monitor's own record)?
 func (s *sched) noteServiceListOps(sb *subsc, d uint64, ops []string) {
@@ -745,12 +776,57 @@ func (s *sched) noteServiceListOps(sb *subsc, d uint64, ops []string) {
 				continue
 			}
 			s.run.Count("service-list-updates-for-non-typical-kind-rows")
+			if sb.nonTypNames == nil {
+				sb.nonTypNames = map[string]bool{}
+			}
+			sb.nonTypNames[name] = true
 			if sb.nonTypical == "" {
 				sb.nonTypical = fmt.Sprintf("%s %q at index %d (typical-kind service of that name before the commit: %v, after: %v; rows of other kinds after: %s)", verb, name, d, was, is, strings.ReplaceAll(h[i].aux, "\n", " "))
 			}
 		}
 		return
 	}
+}
+
+// noteSharedBatch keeps, per (subject, kind of delivery, index), how many events a fully privileged and a
+// restricted client were handed, and counts the batches one token saw only in part while both kinds of
+// client read them - with the order in which they did.
+func (s *sched) noteSharedBatch(sb *subsc, kind string, d uint64, n int) {
+	k := fmt.Sprintf("%s|%s|%d|%d", sb.subj.Name, kind, s.epoch, d)
+	e := s.shared[k]
+	if e == nil {
+		e = &sharedBatch{}
+		s.shared[k] = e
+	}
+	if sb.restricted {
+		if e.nR == 0 && e.nF > 0 {
+			e.first = "full"
+		}
+		if n > e.nR {
+			e.nR = n
+		}
+	} else {
+		if e.nF == 0 && e.nR > 0 {
+			e.first = "restricted"
+		}
+		if n > e.nF {
+			e.nF = n
+		}
+	}
+	if !e.counted && e.nR > 0 && e.nF > e.nR {
+		e.counted = true
+		s.run.Count("shared-batches:partly-visible-to-the-restricted-token")
+		s.run.Count("shared-batches:partly-visible:" + e.first + "-client-read-it-first")
+		s.run.Count("shared-batches:partly-visible:" + kind)
+		s.run.Distinct("partly-visible-batch-subject", sb.subj.Name)
+		s.kinds["partial-batch"] = true
+	}
+}
+
+type sharedBatch struct {
+	nF, nR  int
+	first   string
+	counted bool
 }
 
 // classify names the violation key of a view/store disagreement: a key per CAUSE where the monitor
@@ -793,7 +869,7 @@ func (s *sched) classify(sb *subsc, phase string, exp rec, got string, ops []str
 			}
 		}
 	}
-	if sb.subj.Class == "service-list" && sb.nonTypical != "" {
+	if sb.subj.Class == "service-list" && sb.nonTypical != "" && s.onlyNamesDiffer(exp.content, got, sb.nonTypNames) {
 		return "C11:service-list:update-for-non-typical-kind-row", detail + "; the client had received " + sb.nonTypical + ", an update that no change of the typical-kind service names (what the snapshot lists) accounts for: updates are emitted for kind-service-names rows of EVERY kind (connect-proxy, gateways, connect-enabled, destination) and the name-keyed view cannot tell them apart"
 	}
 	return "C11:" + sb.subj.Class + ":view-differs-" + phase + ":" + cls, detail
@@ -1143,6 +1219,17 @@ func (s *sched) genCommand() gen.Cmd {
 	return c
 }
 
+// commitNext commits a generated write: mostly from the shared generator, sometimes a focus write
+func (s *sched) commitNext() {
+	if s.rng.Chance(18) {
+		class, desc, data := s.focusCommand()
+		s.commit(class, desc, data, nil)
+		return
+	}
+	c := s.genCommand()
+	s.commit(c.Class, c.Desc, c.Bytes, nil)
+}
+
 func (s *sched) pickSubject() *subject {
 	if s.rng.Chance(35) {
 		return s.subjs[s.rng.Intn(2)] // the service-health subjects (web, connect web) get most clients
@@ -1150,12 +1237,184 @@ func (s *sched) pickSubject() *subject {
 	return core.Pick(s.rng, s.subjs)
 }
 
+// ---- writes the shared generator cannot produce (its check IDs are tied to one service ID, its
+// transactions rarely touch several instances of one name): several instances of "web" per node, a
+// check re-pointed to a sibling instance, several instances / several names changed at one index.
+
+var focusNodes = []struct {
+	name, addr string
+	id         types.NodeID
+}{{"n1", "10.0.0.1", gen.NodeIDs[0]}, {"n2", "10.0.0.2", gen.NodeIDs[1]}}
+
+func (s *sched) focusInstance(node int, id, name string) *structs.RegisterRequest {
+	r := s.rng
+	n := focusNodes[node]
+	req := &structs.RegisterRequest{Datacenter: "dc1", Node: n.name, Address: n.addr, ID: n.id,
+		Service: &structs.NodeService{ID: id, Service: name, Port: 8000 + r.Intn(3)}}
+	if r.Chance(40) {
+		req.Service.Tags = []string{core.Pick(r, []string{"v1", "v2"})}
+	}
+	if r.Chance(25) {
+		req.NodeMeta = map[string]string{"role": core.Pick(r, []string{"a", "b", "c"})} // node change: every instance on the node gets an event
+	}
+	return req
+}
+
+func (s *sched) focusCommand() (class, desc string, data []byte) {
+	r := s.rng
+	node := r.Intn(2)
+	n := focusNodes[node]
+	mk := func(class string, t structs.MessageType, req any) (string, string, []byte) {
+		return class, class + " " + core.JSON(req), fsmEnc(t, req)
+	}
+	switch r.Intn(10) {
+	case 0, 1, 2:
+		return mk("focus:instance", structs.RegisterRequestType, s.focusInstance(node, core.Pick(r, []string{"web1", "web2"}), "web"))
+	case 3, 4, 5:
+		// the check zvc of the node, linked to web1 or web2: re-registering it with the sibling's ID is
+		// an UPDATE of the checks row that moves it between two instances of one service name
+		to := core.Pick(r, []string{"web1", "web2"})
+		st := s.r.fsm.State()
+		if _, cur, _ := st.NodeCheck(n.name, "zvc", nil, ""); cur != nil && cur.ServiceID != "" && cur.ServiceID != to {
+			_, a, _ := st.NodeService(nil, n.name, cur.ServiceID, nil, "")
+			_, b, _ := st.NodeService(nil, n.name, to, nil, "")
+			if a != nil && b != nil && a.Service == b.Service {
+				s.run.Count("focus:check-moved-to-sibling-instance")
+				for _, sb := range s.subs {
+					if sb.subj.Name == "health:"+a.Service && !sb.tainted && sb.delivered > 0 {
+						s.run.Count("focus:check-moved-to-sibling-instance:with-live-client")
+						s.kinds["relink"] = true
+						break
+					}
+				}
+			}
+		}
+		req := &structs.RegisterRequest{Datacenter: "dc1", Node: n.name, Address: n.addr, ID: n.id, SkipNodeUpdate: true,
+			Check: &structs.HealthCheck{Node: n.name, CheckID: "zvc", Name: "zvc", Status: core.Pick(r, []string{api.HealthPassing, api.HealthWarning, api.HealthCritical}), ServiceID: to}}
+		return mk("focus:check", structs.RegisterRequestType, req)
+	case 6, 7:
+		// one transaction, several instances / names at one index
+		ops := structs.TxnOps{}
+		for k := range focusNodes {
+			fn := focusNodes[k]
+			ops = append(ops, &structs.TxnOp{Node: &structs.TxnNodeOp{Verb: api.NodeSet, Node: structs.Node{Node: fn.name, Address: fn.addr, ID: fn.id, Datacenter: "dc1"}}})
+		}
+		for _, x := range [][2]string{{"api", "api"}, {"db", "db"}, {"web1", "web"}, {"web2", "web"}} {
+			for k := range focusNodes {
+				if r.Chance(60) {
+					ns := structs.NodeService{ID: x[0], Service: x[1], Port: 8000 + r.Intn(3)}
+					ops = append(ops, &structs.TxnOp{Service: &structs.TxnServiceOp{Verb: api.ServiceSet, Node: focusNodes[k].name, Service: ns}})
+				}
+			}
+		}
+		return mk("focus:txn-many-instances", structs.TxnRequestType, &structs.TxnRequest{Datacenter: "dc1", Ops: ops})
+	case 8:
+		return mk("focus:deregister-node", structs.DeregisterRequestType, &structs.DeregisterRequest{Datacenter: "dc1", Node: n.name})
+	default:
+		name := core.Pick(r, []string{"api", "db"})
+		return mk("focus:instance", structs.RegisterRequestType, s.focusInstance(node, name, name))
+	}
+}
+
+// scenario families: fixed openings that put the schedule into a situation the property singles out;
+// the PRNG steps continue from there.
+func (s *sched) scenarioRelink() {
+	s.logf("scenario: two instances of web on n1, check zvc on web1, live clients, zvc re-registered on web2")
+	for _, id := range []string{"web1", "web2"} {
+		req := s.focusInstance(0, id, "web")
+		req.NodeMeta = nil
+		s.commit("focus:instance", "focus:instance "+core.JSON(req), fsmEnc(structs.RegisterRequestType, req), nil)
+	}
+	chk := func(to string) {
+		n := focusNodes[0]
+		req := &structs.RegisterRequest{Datacenter: "dc1", Node: n.name, Address: n.addr, ID: n.id, SkipNodeUpdate: true,
+			Check: &structs.HealthCheck{Node: n.name, CheckID: "zvc", Name: "zvc", Status: api.HealthPassing, ServiceID: to}}
+		s.commit("focus:check", "focus:check "+core.JSON(req), fsmEnc(structs.RegisterRequestType, req), nil)
+	}
+	chk("web1")
+	s.drainAll()
+	s.newClient(s.subjs[0], "", false)
+	s.newClient(s.subjs[0], secretA, s.rng.Bool())
+	if s.rng.Bool() {
+		s.newClient(s.subjs[1], "", false)
+	}
+	s.run.Count("focus:check-moved-to-sibling-instance")
+	s.run.Count("focus:check-moved-to-sibling-instance:with-live-client")
+	s.kinds["relink"] = true
+	chk("web2")
+}
+
+func (s *sched) scenarioPartialBatch() {
+	s.logf("scenario: api, db, web (+ resolvers) exist; a restricted and a privileged client share the wildcard subjects; then many names change at one index")
+	ops := structs.TxnOps{}
+	for k := range focusNodes {
+		fn := focusNodes[k]
+		ops = append(ops, &structs.TxnOp{Node: &structs.TxnNodeOp{Verb: api.NodeSet, Node: structs.Node{Node: fn.name, Address: fn.addr, ID: fn.id, Datacenter: "dc1"}}})
+	}
+	for _, x := range [][2]string{{"api", "api"}, {"db", "db"}, {"web1", "web"}, {"web2", "web"}} {
+		for k := range focusNodes {
+			ops = append(ops, &structs.TxnOp{Service: &structs.TxnServiceOp{Verb: api.ServiceSet, Node: focusNodes[k].name, Service: structs.NodeService{ID: x[0], Service: x[1], Port: 8000}}})
+		}
+	}
+	req := &structs.TxnRequest{Datacenter: "dc1", Ops: ops}
+	s.commit("focus:txn-many-instances", "focus:txn-many-instances "+core.JSON(req), fsmEnc(structs.TxnRequestType, req), nil)
+	for _, name := range []string{"api", "db", "web"} {
+		e := &structs.ServiceResolverConfigEntry{Kind: structs.ServiceResolver, Name: name, ConnectTimeout: 3 * time.Second}
+		_ = e.Normalize()
+		cr := &structs.ConfigEntryRequest{Datacenter: "dc1", Op: structs.ConfigEntryUpsert, Entry: e}
+		s.commit("config:upsert:service-resolver", "config:upsert service-resolver/"+name, fsmEnc(structs.ConfigEntryRequestType, cr), nil)
+	}
+	s.drainAll()
+	var wild []*subject
+	for _, sj := range s.subjs {
+		if sj.Name == "svclist:*" || sj.Name == "resolver:*" || sj.Name == "health:web" {
+			wild = append(wild, sj)
+		}
+	}
+	restrictedFirst := s.rng.Bool()
+	for _, sj := range wild {
+		toks := []string{secretB, core.Pick(s.rng, []string{"", secretA})}
+		if !restrictedFirst {
+			toks[0], toks[1] = toks[1], toks[0]
+		}
+		for _, tok := range toks {
+			if len(s.subs) < 7 {
+				s.newClient(sj, tok, s.rng.Chance(30))
+			}
+		}
+	}
+	// several names / instances / nodes at one index
+	switch s.rng.Intn(3) {
+	case 0:
+		dr := &structs.DeregisterRequest{Datacenter: "dc1", Node: "n2"}
+		s.commit("focus:deregister-node", "focus:deregister-node "+core.JSON(dr), fsmEnc(structs.DeregisterRequestType, dr), nil)
+	case 1:
+		ops := structs.TxnOps{}
+		for _, x := range [][2]string{{"api", "api"}, {"db", "db"}, {"web1", "web"}} {
+			for k := range focusNodes {
+				ops = append(ops, &structs.TxnOp{Service: &structs.TxnServiceOp{Verb: api.ServiceDelete, Node: focusNodes[k].name, Service: structs.NodeService{ID: x[0], Service: x[1]}}})
+			}
+		}
+		tr := &structs.TxnRequest{Datacenter: "dc1", Ops: ops}
+		s.commit("focus:txn-many-instances", "focus:txn-delete-many "+core.JSON(tr), fsmEnc(structs.TxnRequestType, tr), nil)
+	default:
+		ops := structs.TxnOps{}
+		for k := range focusNodes {
+			for _, id := range []string{"web1", "web2"} {
+				ops = append(ops, &structs.TxnOp{Service: &structs.TxnServiceOp{Verb: api.ServiceSet, Node: focusNodes[k].name, Service: structs.NodeService{ID: id, Service: "web", Port: 9000, Tags: []string{"moved"}}}})
+			}
+		}
+		tr := &structs.TxnRequest{Datacenter: "dc1", Ops: ops}
+		s.commit("focus:txn-many-instances", "focus:txn-update-many "+core.JSON(tr), fsmEnc(structs.TxnRequestType, tr), nil)
+	}
+}
+
 func weights() gen.Weights {
 	return gen.Weights{Catalog: 50, Txn: 10, Config: 26, KV: 2, Session: 3, Peering: 2, VIP: 1, SysMeta: 2, Intention: 2}
 }
 
-func runSchedule(run *core.Run, rng *core.Rand, name string, nsteps int) {
-	s := &sched{run: run, rng: rng, name: name, hist: map[string][]rec{}, commitEpoch: map[uint64]int{}, multi: map[uint64]bool{}, tokens: map[string]bool{}, kinds: map[string]bool{}, idx: 3}
+func runSchedule(run *core.Run, rng *core.Rand, name string, ordinal, nsteps int) {
+	s := &sched{run: run, rng: rng, name: name, hist: map[string][]rec{}, commitEpoch: map[uint64]int{}, multi: map[uint64]bool{}, shared: map[string]*sharedBatch{}, tokens: map[string]bool{}, kinds: map[string]bool{}, idx: 3}
 	s.sync = rng.Chance(30)
 	s.ttl = core.Pick(rng, []time.Duration{0, 10 * time.Second, 10 * time.Second})
 	s.r = newReplica(s.ttl)
@@ -1177,8 +1436,17 @@ func runSchedule(run *core.Run, rng *core.Rand, name string, nsteps int) {
 		s.drainAll()
 	}
 
+	// every 6th schedule opens with the check-relink scenario, every 6th with the partial-visibility one
+	switch ordinal % 6 {
+	case 4:
+		s.scenarioRelink()
+		run.Count("schedules:scenario-check-relink")
+	case 5:
+		s.scenarioPartialBatch()
+		run.Count("schedules:scenario-partly-visible-batch")
+	}
 	// a few clients are there from the start
-	for i := 0; i < 3; i++ {
+	for i := len(s.subs); i < 3; i++ {
 		s.newClient(s.pickSubject(), core.Pick(rng, tokensOfClients), rng.Chance(40))
 	}
 	for step := 0; step < nsteps && !s.stop && run.Violations() <= 30; step++ {
@@ -1190,12 +1458,10 @@ func runSchedule(run *core.Run, rng *core.Rand, name string, nsteps int) {
 				s.drainOne()
 				continue
 			}
-			c := s.genCommand()
-			s.commit(c.Class, c.Desc, c.Bytes, nil)
+			s.commitNext()
 		case k < 60:
 			if !s.drainOne() {
-				c := s.genCommand()
-				s.commit(c.Class, c.Desc, c.Bytes, nil)
+				s.commitNext()
 			}
 		case k < 67:
 			if len(s.subs) >= 7 {
@@ -1343,7 +1609,7 @@ func TestZZVerifC11(t *testing.T) {
 						continue
 					}
 					synctest.Test(t, func(t *testing.T) {
-						runSchedule(run, forks[i], name, nsteps)
+						runSchedule(run, forks[i], name, i, nsteps)
 					})
 				}
 			})
@@ -1360,6 +1626,12 @@ func TestZZVerifC11(t *testing.T) {
 	run.Floor("forced-resubscribes:acl-change", nsched/6)
 	run.Floor("new-snapshot-to-follow", nsched/3)
 	run.Floor("resubscribe-index:nonzero", nsched/3)
+	run.Floor("focus:check-moved-to-sibling-instance:with-live-client", nsched/8)
+	run.Floor("deliveries:multi-event:event", nsched/3)
+	run.Floor("deliveries:multi-event:snapshot", nsched)
+	run.Floor("shared-batches:partly-visible-to-the-restricted-token", nsched/6)
+	run.Floor("shared-batches:partly-visible:restricted-client-read-it-first", nsched/20)
+	run.Floor("shared-batches:partly-visible:full-client-read-it-first", nsched/20)
 	run.FloorDistinct("subject", 8)
 	if run.Finish() == 1 {
 		t.Fail()
